@@ -583,6 +583,16 @@ def _irrefutable(p: ast.pattern) -> bool:
 def _suppressed_types(s: ast.With | ast.AsyncWith) -> tuple[str, ...]:
     for item in s.items:
         e = item.context_expr
+        if isinstance(e, ast.Name):
+            # module-level alias: `suppress_exceptions = suppress(Exception)`
+            try:
+                from .loader import module_of
+
+                bound = module_of(s).toplevel_assign(e.id)
+            except AnalysisError:
+                bound = None
+            if bound is not None:
+                e = bound
         if isinstance(e, ast.Call):
             f = e.func
             name = f.id if isinstance(f, ast.Name) else getattr(f, "attr", "")
